@@ -1036,6 +1036,9 @@ func ruleSeq(c *engine.Context) *report.Rule {
 			single := true
 			for _, e := range l.Exits {
 				if e.From != l.Header {
+					if redundantBoundExit(ind, e.From, e.To) {
+						continue // `if index >= len(x) { break }` inside `for index := range x`: never taken
+					}
 					single = false
 					why = fmt.Sprintf("an edge leaves the loop body early (block %d → %d: break/return/goto)", e.From.Index, e.To.Index)
 				}
@@ -1326,6 +1329,46 @@ func pointerLike(t types.Type) bool {
 	switch t.Underlying().(type) {
 	case *types.Pointer, *types.Interface:
 		return true
+	}
+	return false
+}
+
+// redundantBoundExit: the edge from -> to leaves an ascending loop under the condition that the
+// loop's own index has reached the loop's own bound — which the loop condition already excludes.
+func redundantBoundExit(ind *cfgutil.Induction, from, to *ssa.BasicBlock) bool {
+	if ind == nil || ind.Kind != cfgutil.LoopAscending || ind.Bound == nil {
+		return false
+	}
+	ifi, ok := from.Instrs[len(from.Instrs)-1].(*ssa.If)
+	if !ok {
+		return false
+	}
+	bo, ok := ifi.Cond.(*ssa.BinOp)
+	if !ok {
+		return false
+	}
+	sameBound := func(v ssa.Value) bool {
+		if v == ind.Bound {
+			return true
+		}
+		a, ok1 := lenArg(v)
+		b, ok2 := lenArg(ind.Bound)
+		return ok1 && ok2 && resolveCell(a) == resolveCell(b)
+	}
+	op, x, y := bo.Op, bo.X, bo.Y
+	if sameBound(x) {
+		x, y = y, x
+		op = mirrorOp(op)
+	}
+	if resolveCell(x) != ind.Index || !sameBound(y) {
+		return false
+	}
+	exitOnTrue := from.Succs[0] == to
+	switch op {
+	case token.GEQ: // index >= bound: true edge infeasible
+		return exitOnTrue
+	case token.LSS: // index < bound: false edge infeasible
+		return !exitOnTrue
 	}
 	return false
 }
